@@ -655,7 +655,16 @@ func ruleQueueFailureIsFinal(r *Report, rh string) {
 		car := errCarriers(fn, func(v ssa.Value) bool { return al[v] })
 		eachInstr(fn, func(s Site) {
 			st, ok := s.Instr.(*ssa.Store)
-			if !ok || !(al[st.Val] || car[st.Val] || al[stripIface(st.Val)] || car[stripIface(st.Val)]) {
+			if !ok {
+				return
+			}
+			// the refill's error itself, something made of it (also by a helper of the module), or any error stored on the
+			// way to the failing exit behind the refill
+			carried := al[st.Val] || car[st.Val] || al[stripIface(st.Val)] || car[stripIface(st.Val)]
+			if !carried && isErrorType(st.Val.Type()) && reachableFromSite(rf, s) && endsInFailingReturn(s.Block) {
+				carried = valueDependsOn(st.Val, func(x ssa.Value) bool { return al[x] || car[x] })
+			}
+			if !carried {
 				return
 			}
 			if fa, isF := st.Addr.(*ssa.FieldAddr); isF && paramOrigin(fa.X) == recv && isErrorType(st.Val.Type()) {
